@@ -73,7 +73,22 @@ type vxGhostWALState struct {
 
 var vxGhostWAL *vxGhostWALState
 
+// vxGhostScript, when set, scripts the WAL copy round by round (sizes in bytes of
+// the live WAL generation before and after the round, and whether anything was
+// copied); used by harnesses that are about what syncLocked does around the copy.
+type vxGhostRound struct {
+	orig, size int64
+	synced     bool
+}
+
+var vxGhostScript []vxGhostRound
+
 func (db *DB) verifyAndSyncWithExecutor(ctx context.Context, checkpointing bool, exec *syncExecutor, maxSyncWALBytes int64) (syncResult, error) {
+	if len(vxGhostScript) > 0 {
+		r := vxGhostScript[0]
+		vxGhostScript = vxGhostScript[1:]
+		return syncResult{origWALSize: r.orig, newWALSize: r.size, synced: r.synced, syncedToWALEnd: true}, nil
+	}
 	if g := vxGhostWAL; g != nil {
 		g.rounds++
 		g.maxSeen = maxSyncWALBytes
